@@ -746,7 +746,10 @@ def run(ctx):
         if not ctx.violations:
             raise Vacuity(f"S3: kinds of events / refusals / bracket levels / several solutions missing: {per_kind}, "
                           f"refusals={refusals}, bracket characters={len(letters - {'.'})}, max order={max_order}")
-    ctx.sample({"s3_event": next((e for e in evs if e["op"] == "db" and len(e["obs"][1]) >= 2), evs[0])})
+    e = next((e for e in evs if e["op"] == "db" and len(e["obs"][1]) >= 2), None)
+    if e:                                   # (the order of the solutions is not fixed: sorted for the record)
+        ctx.sample({"s3_event": {"op": "db", "bp": e["bp"], "len": e["len"], "sc": e["sc"], "maxo": e["maxo"],
+                                 "notations": sorted("".join(s) for s in e["obs"][1])}})
     ctx.sample({"s3_event": next((e for e in evs if e["op"] == "parse" and e["obs"][0] == "Rejected"), evs[0])})
     ctx.log(f"S3: {len(evs)} recorded calls in {len(traces)} histories judged by TLC: {per_kind}")
 
@@ -820,6 +823,6 @@ def _diag_counts(dgs):
 
 MANIFEST = {
     "technique": "TLA+ specification of pseudoknot orders (declarative recursive optimum and the code's regions / conflict graph / dynamic programme), of dot-bracket-letter rendering and of the bracket parser (specs/X02) model-checked by TLC; every enumerated set of base pairs and every enumerated notation executed against the real API and compared with TLC's values; recorded random histories of calls and the calls of the repository's own tests judged by TLC with the same operators",
-    "level_text": "TLC checks on every set of disjoint base pairs on 8 positions (empty, nested, crossing, up to order 3; three presentations: sorted, reversed rows with reversed pairs and spread positions, permuted rows with gaps), on every such set on 6 positions with every score vector over {1, 2, 3}, each with max_pseudoknot_order None / 0 / 1, that the code-shaped algorithm (regions, conflict graph, dynamic programme with all optimal solutions, recursion over orders) returns exactly the declarative set of solutions (level k = a heaviest knot-free subset of what levels < k left), that no two pairs of a level cross, that a maximum order only cuts the unrestricted solutions off, that regions are stacks crossed entirely or not at all and the code's conflict graph is the crossing relation, that rendering writes one notation per solution and base_pairs_from_dot_bracket reads the pairs with an order back; and on every notation of <= 4 characters over {. ( ) [ ] A a x} and <= 6 characters over {. ( ) [ ]} that the stack parser equals the declarative pairing and rejects exactly the ill-formed notations. Every such case is executed against the real pseudoknots / dot_bracket / base_pairs_from_dot_bracket (five kinds of caller arrays, arrays compared with copies afterwards) and compared with TLC's values. Random histories (structures with helices of <= 9 pairs judged declaratively, 14-18 pairs judged by the code-shaped operator, ladders using all 30 bracket levels and the 31st, refusals, damaged notations over the whole alphabet, dot_bracket_from_structure over given atom pairs) and the calls of the repository's tests (20 pairs on 100 positions) are recorded and judged by TLC.",
+    "level_text": "TLC checks on every set of disjoint base pairs on 8 positions (empty, nested, crossing, up to order 3; three presentations: sorted, reversed rows with reversed pairs and spread positions, permuted rows with gaps), on every perfect pairing of 10 positions, on every such set on 6 positions with every score vector over {1, 2} (thorough tier: 9-10 positions, 7 positions with scores over {1, 2, 3}, maximum order up to 2), each with max_pseudoknot_order None / 0 / 1, that the code-shaped algorithm (regions, conflict graph, dynamic programme with all optimal solutions, recursion over orders) returns exactly the declarative set of solutions (level k = a heaviest knot-free subset of what levels < k left), that no two pairs of a level cross, that a maximum order only cuts the unrestricted solutions off, that regions are stacks crossed entirely or not at all and the code's conflict graph is the crossing relation, that rendering writes one notation per solution and base_pairs_from_dot_bracket reads the pairs with an order back; and on every notation of <= 4 characters over {. ( ) [ ] A a x} and <= 6 characters over {. ( ) [ ]} that the stack parser equals the declarative pairing and rejects exactly the ill-formed notations. Every such case is executed against the real pseudoknots / dot_bracket / base_pairs_from_dot_bracket (five kinds of caller arrays, arrays compared with copies afterwards) and compared with TLC's values. Random histories (structures with helices of <= 9 pairs judged declaratively, 14-18 pairs judged by the code-shaped operator, ladders using all 30 bracket levels and the 31st, refusals, damaged notations over the whole alphabet, dot_bracket_from_structure over given atom pairs) and the calls of the repository's tests (20 pairs on 100 positions) are recorded and judged by TLC.",
     "level_note": "Bounded: exhaustive only inside the stated bounds; beyond 12 base pairs the expected solutions come from the code-shaped operator (equal to the declarative one on every bounded input). Scores are positive integers. base_pairs() itself (geometry) is not modelled: dot_bracket_from_structure is judged over given atom pairs. The claim of the documentation that the order is the minimum number of decompositions is not part of the statement and is not decided. Trusted: TLC, the TLA+ value parser, the projections, numpy.",
 }
